@@ -1,6 +1,6 @@
 (* copied to coq/gen/ on every run; evaluates the generated register model against the frozen spec *)
 From Coq Require Import NArith List String.
-From CSS Require Import Lib.SymBits Lib.RegTypes Lib.RegOblig Spec.RegisterSpec gen.FromSource_registers.
+From CSS Require Import Lib.SymBits Lib.RegTypes Lib.RegOblig Lib.RegFresh Spec.RegisterSpec gen.FromSource_registers.
 Import ListNotations.
 Open Scope N_scope.
 
@@ -10,6 +10,8 @@ Definition results : list result :=
   ++ map (oblig_aligned tables) (filter (fun e => negb (smem (fst (fst e)) no_table_field)) spec_accessors)
   ++ map (fun n => (("unspecified:" ++ n)%string, false, None)) (unspecified accessors spec_accessors)
   ++ map (fun n => (("untranslated:" ++ n)%string, false, None)) untranslated
+  ++ map (oblig_fresh spec_stateless spec_fresh alloc_fns) spec_fresh
+  ++ map (fun n => (("fresh-unspecified:" ++ n)%string, false, None)) (unlisted_fresh spec_fresh alloc_fns)
   ++ [("tables-count"%string, Nat.eqb (List.length tables) (List.length spec_tables), None)].
 Definition R := Eval vm_compute in results.
 Print R.
